@@ -280,6 +280,10 @@ class YAMLPath:
 
         # This changes only the stringified representation
         if not value == old_value:
+            # Parse both forms of the path with the separator it was written
+            # with; a later, lazy parse would use the new separator and so
+            # disagree with the segments stringified here.
+            _ = self.escaped
             self._stringified = YAMLPath._stringify_yamlpath_segments(
                 self.unescaped, value)
             self._separator = value
